@@ -23,8 +23,9 @@
 (* Every case is published ("@@" + JSON) for replay on compiled modules.     *)
 EXTENDS Integers, Sequences, FiniteSets, TLC, Json
 
-CONSTANTS Modes,                       \* subset of {"expr", "sig"}
-          Names, Nums, Atoms, Opqs,    \* leaf ids (the harness owns their source text)
+CONSTANTS Modes,                       \* subset of {"expr", "lit", "sig"}
+          Names, Nums, Atoms, Opqs,    \* leaf ids of mode "expr" (the harness owns their source text)
+          LitTok,                      \* mode "lit": the whole literal pool under at most LitTok - 1 one-operand constructors
           UnOps, BinOps, BoolOps, CmpOps, ChainOps, Ctors,
           MaxOps, MaxTok,              \* bounds on operator nodes / all nodes of a tree
           MaxParams, MaxNest,
@@ -56,6 +57,7 @@ AllCtors == {"tuple1", "tuple2", "list1", "set1", "dict1", "attr", "idx", "sl_lo
              "call0", "call1", "call2", "callstar", "calldstar", "callkw", "cond"}
 RepCtors == {"tuple1", "tuple2", "list1", "dict1", "attr", "idx", "sl_lohi", "call1", "callkw", "cond"}
 DispCtors == {"tuple1", "tuple2", "list1", "set1", "dict1"}
+LitCtors == {"tuple1", "list1", "set1", "attr", "call0", "sl_all"}
 
 VARIABLES mode, stack, nops, ntok, params, path, leaf
 vars == <<mode, stack, nops, ntok, params, path, leaf>>
@@ -396,11 +398,15 @@ LeafOK(p, lf) == lf \in {"static", "classm"} => (Len(p) > 0 /\ p[Len(p)] \in {"c
 H == Len(stack)
 Top(i) == stack[H - i]
 Pop(k) == SubSeq(stack, 1, H - k)
-IsExpr == mode = "expr"
+IsExpr == mode \in {"expr", "lit"}
+IsLit == mode = "lit"
+MaxT == IF IsLit THEN LitTok ELSE MaxTok
+MaxO == IF IsLit THEN LitTok - 1 ELSE MaxOps
+CtorSet == IF IsLit THEN LitCtors ELSE Ctors
 Half(n) == (n + 1) \div 2
 \* one more operator node fits (and the remaining stack can still be reduced to one tree)
-Room(arity) == /\ IsExpr /\ H >= arity /\ nops < MaxOps /\ ntok < MaxTok
-               /\ nops + 1 + Half(H - arity) <= MaxOps /\ ntok + 1 + Half(H - arity) <= MaxTok
+Room(arity) == /\ IsExpr /\ H >= arity /\ nops < MaxO /\ ntok < MaxT
+               /\ nops + 1 + Half(H - arity) <= MaxO /\ ntok + 1 + Half(H - arity) <= MaxT
 Keep == UNCHANGED <<mode, params, path, leaf>>
 Reduce(arity, node) == /\ stack' = Append(Pop(arity), node) /\ nops' = nops + 1 /\ ntok' = ntok + 1 /\ Keep
 
@@ -410,8 +416,10 @@ Base(e) == Opnd(e) /\ e.k # "num" /\ ~FoldedNeg(e)
 
 Init == /\ mode \in Modes /\ stack = <<>> /\ nops = 0 /\ ntok = 0 /\ params = <<>> /\ path = <<>> /\ leaf = "def"
 
-Push == /\ IsExpr /\ H < 3 /\ ntok + 1 + Half(H) <= MaxTok /\ (H > 0 => nops + Half(H) <= MaxOps)
-        /\ \E l \in ({"name"} \X Names) \cup ({"num"} \X Nums) \cup ({"atom"} \X Atoms) \cup ({"opq"} \X Opqs) :
+LeafPool == IF IsLit THEN ({"name"} \X LvNames1) \cup ({"num"} \X LvLits) \cup ({"atom"} \X LvAtomsAll) \cup ({"opq"} \X LvOpqs)
+            ELSE ({"name"} \X Names) \cup ({"num"} \X Nums) \cup ({"atom"} \X Atoms) \cup ({"opq"} \X Opqs)
+Push == /\ IsExpr /\ H < (IF IsLit THEN 1 ELSE 3) /\ ntok + 1 + Half(H) <= MaxT /\ (H > 0 => nops + Half(H) <= MaxO)
+        /\ \E l \in LeafPool :
              stack' = Append(stack, Lf(l[1], l[2]))
         /\ ntok' = ntok + 1 /\ UNCHANGED <<mode, nops, params, path, leaf>>
 
@@ -425,27 +433,32 @@ Boolean == /\ Room(2)
            /\ \E op \in BoolOps : Reduce(2, N("bool", <<op>>, <<Top(1), Top(0)>>))
 Compare == /\ Room(2)
            /\ \E op \in CmpOps : Reduce(2, N("cmp", <<op>>, <<Top(1), Top(0)>>))
-ChainCmp == /\ Room(3)
+\* (a chain with two adjacent constant operands is rewritten by ConstantFolding into a different, not always
+\*  value-equal expression: a matter of constant folding, not of signatures -- left out of the family)
+ChainCmp == /\ Room(3) /\ ~(Closed(Top(2)) /\ Closed(Top(1))) /\ ~(Closed(Top(1)) /\ Closed(Top(0)))
             /\ \E o1 \in ChainOps, o2 \in ChainOps : Reduce(3, N("cmp", <<o1, o2>>, <<Top(2), Top(1), Top(0)>>))
-Cond == /\ Room(3) /\ "cond" \in Ctors
+Cond == /\ Room(3) /\ "cond" \in CtorSet
         /\ Reduce(3, N("cond", <<>>, <<Top(2), Top(1), Top(0)>>))
-Display == \E ct \in Ctors \cap DispCtors :
+Display == \E ct \in CtorSet \cap DispCtors :
              CASE ct = "tuple1" -> Room(1) /\ Reduce(1, N("tuple", <<>>, <<Top(0)>>))
                [] ct = "list1"  -> Room(1) /\ Reduce(1, N("list", <<>>, <<Top(0)>>))
                [] ct = "set1"   -> Room(1) /\ Top(0).k \in {"name", "num", "atom", "tuple"} /\ Reduce(1, N("set", <<>>, <<Top(0)>>))
                [] ct = "tuple2" -> Room(2) /\ Reduce(2, N("tuple", <<>>, <<Top(1), Top(0)>>))
                [] ct = "dict1"  -> Room(2) /\ Top(1).k \in {"name", "num", "atom", "tuple"}
                                    /\ Reduce(2, N("dict", <<>>, <<N("kv", <<>>, <<Top(1), Top(0)>>)>>))
+\* (a tuple display of integer literals as a slice bound makes the compiler emit C that does not compile:
+\*  by-catch, reported in the notes, not a matter of signatures)
+Bound(e) == e.k # "tuple"
 Sl(lo, hi, st) == N("slice", <<>>, <<lo, hi, st>>)
-Primary == \E ct \in Ctors \ (DispCtors \cup {"cond"}) :
+Primary == \E ct \in CtorSet \ (DispCtors \cup {"cond"}) :
              CASE ct = "attr"    -> Room(1) /\ (Base(Top(0)) \/ Top(0).k = "num" \/ FoldedNeg(Top(0)))
                                     /\ Reduce(1, N("attr", <<"real">>, <<Top(0)>>))
                [] ct = "idx"     -> Room(2) /\ Base(Top(1)) /\ Reduce(2, N("sub", <<>>, <<Top(1), Top(0)>>))
-               [] ct = "sl_lo"   -> Room(2) /\ Base(Top(1)) /\ Reduce(2, N("sub", <<>>, <<Top(1), Sl(Top(0), Absent, Absent)>>))
-               [] ct = "sl_hi"   -> Room(2) /\ Base(Top(1)) /\ Reduce(2, N("sub", <<>>, <<Top(1), Sl(Absent, Top(0), Absent)>>))
+               [] ct = "sl_lo"   -> Room(2) /\ Base(Top(1)) /\ Bound(Top(0)) /\ Reduce(2, N("sub", <<>>, <<Top(1), Sl(Top(0), Absent, Absent)>>))
+               [] ct = "sl_hi"   -> Room(2) /\ Base(Top(1)) /\ Bound(Top(0)) /\ Reduce(2, N("sub", <<>>, <<Top(1), Sl(Absent, Top(0), Absent)>>))
                [] ct = "sl_st"   -> Room(2) /\ Base(Top(1)) /\ Reduce(2, N("sub", <<>>, <<Top(1), Sl(Absent, Absent, Top(0))>>))
                [] ct = "sl_all"  -> Room(1) /\ Base(Top(0)) /\ Reduce(1, N("sub", <<>>, <<Top(0), Sl(Absent, Absent, Absent)>>))
-               [] ct = "sl_lohi" -> Room(3) /\ Base(Top(2)) /\ Reduce(3, N("sub", <<>>, <<Top(2), Sl(Top(1), Top(0), Absent)>>))
+               [] ct = "sl_lohi" -> Room(3) /\ Base(Top(2)) /\ Bound(Top(1)) /\ Bound(Top(0)) /\ Reduce(3, N("sub", <<>>, <<Top(2), Sl(Top(1), Top(0), Absent)>>))
                [] ct = "call0"   -> Room(1) /\ Base(Top(0)) /\ Reduce(1, N("call", <<>>, <<Top(0)>>))
                [] ct = "call1"   -> Room(2) /\ Base(Top(1)) /\ Reduce(2, N("call", <<>>, <<Top(1), Top(0)>>))
                [] ct = "call2"   -> Room(3) /\ Base(Top(2)) /\ Reduce(3, N("call", <<>>, <<Top(2), Top(1), Top(0)>>))
@@ -477,7 +490,7 @@ Spec == Init /\ [][Next]_vars
 ExprCase == IsExpr /\ H = 1
 E == stack[1]
 
-TypeOK == /\ mode \in {"expr", "sig"} /\ H <= 3 /\ nops <= MaxOps /\ ntok <= MaxTok
+TypeOK == /\ mode \in {"expr", "lit", "sig"} /\ H <= 3 /\ nops <= MaxO /\ ntok <= MaxT
           /\ ntok = SumSizes(stack, 1)
           /\ ValidParams(params) /\ PathOK(path) /\ LeafOK(path, leaf)
 
@@ -503,7 +516,7 @@ SetToSortedSeq(S) == LET order == <<"assoc", "chain", "cond", "negpow", "primary
 ExprOK == ExprCase =>
             LET v == Verdict(E) IN
             /\ v.roundtrip /\ v.implparses /\ v.catalogue /\ v.strikes
-            /\ Dump => PrintT("@@" \o ToJson([mode |-> "expr", ast |-> E, ref |-> Texts(v.ref), impl |-> Texts(v.im),
+            /\ Dump => PrintT("@@" \o ToJson([mode |-> mode, ast |-> E, ref |-> Texts(v.ref), impl |-> Texts(v.im),
                                               hazard |-> (~v.fold /\ v.hz), foldish |-> v.fold,
                                               tags |-> SetToSortedSeq(v.tags), nops |-> nops]))
 \* the same statements one by one (for diagnosis)
@@ -521,10 +534,4 @@ QualOK == IsSig => LET q == QualName(path) IN
 SigOK == IsSig => /\ QualOK
                   /\ Dump => PrintT("@@" \o ToJson([mode |-> "sig", params |-> params, path |-> path, leaf |-> leaf,
                                                     qualname |-> QualName(path)]))
-
-B_Print == ExprCase => Len(RefText(E)) > 0
-B_Impl == ExprCase => Len(ImplText(E)) > 0
-B_Parse == ExprCase => Parse(RefText(E)).k # "zz"
-B_Norm == ExprCase => Norm(E).k # "zz"
-B_Tags == ExprCase => Cardinality(Tags(E)) < 10 /\ (Foldish(E) \/ TRUE)
 =============================================================================
